@@ -485,6 +485,7 @@ pub fn c03(c: &Collector, g: &mut Guard) {
             }
         }
         cc.add_transitions(l.words);
+        cc.count("oracle_checks", l.words);
         cc.count("words", l.words);
         cc.count("words_d8_skipped", l.d8);
         cc.count("words_d8_labels_only", l.d8_labels);
@@ -556,6 +557,7 @@ pub fn c03(c: &Collector, g: &mut Guard) {
             }
         }
         cc.add_transitions(l.words);
+        cc.count("oracle_checks", l.words);
         cc.count("words", l.words);
         cc.count("family_words", l.words);
         cc.outcomes(&l.outcomes);
@@ -586,6 +588,7 @@ pub fn c03(c: &Collector, g: &mut Guard) {
             }
         }
         cc.add_transitions(l.words);
+        cc.count("oracle_checks", l.words);
         cc.count("words", l.words);
         cc.count("macro_words", l.words);
         cc.count("words_d8_skipped", l.d8);
@@ -683,6 +686,7 @@ pub fn c03(c: &Collector, g: &mut Guard) {
             }
         }
         cc.add_transitions(n);
+        cc.count("oracle_checks", n);
         cc.count("two_parser_cases", n);
     });
     for cr in crashes {
@@ -719,6 +723,7 @@ pub fn c03(c: &Collector, g: &mut Guard) {
             }
         }
         cc.add_transitions(l.words);
+        cc.count("oracle_checks", l.words);
         cc.count("words", l.words);
         cc.count("odd_final_words", l.words);
         cc.count("words_d8_skipped", l.d8);
@@ -742,6 +747,7 @@ pub fn c03(c: &Collector, g: &mut Guard) {
             }
         }
         cc.add_transitions(l.words);
+        cc.count("oracle_checks", l.words);
         cc.count("words", l.words);
         cc.count("long_words", l.words);
         cc.outcomes(&l.outcomes);
@@ -786,6 +792,7 @@ pub fn c03(c: &Collector, g: &mut Guard) {
             }
         }
         cc.add_transitions(l.words);
+        cc.count("oracle_checks", l.words);
         cc.count("words", l.words);
         cc.count("osc_words", l.words);
         cc.count("words_d8_skipped", l.d8);
@@ -916,6 +923,7 @@ pub fn c19(c: &Collector, g: &mut Guard) {
             }
         }
         cc.add_transitions(n);
+        cc.count("oracle_checks", n);
         cc.count("osc_feeds", n);
         cc.count("payloads", payloads.len() as u64);
         cc.outcomes(&outcomes);
@@ -1281,6 +1289,7 @@ pub fn c11(c: &Collector, g: &mut Guard) {
             }
         }
         cc.add_transitions(l.n);
+        cc.count("oracle_checks", l.n);
         cc.add_states(strings);
         cc.count("byte_strings", strings);
         cc.count("cases", l.n);
@@ -1556,6 +1565,7 @@ pub fn c11(c: &Collector, g: &mut Guard) {
             cc.count("two_parser_cases", 24);
         }
         cc.add_transitions(l.n);
+        cc.count("oracle_checks", l.n);
         cc.count("cases", l.n);
         cc.count("chunk_ends_inside_multibyte", l.split_multibyte);
         cc.outcomes(&l.outcomes);
@@ -1579,6 +1589,7 @@ pub fn c11(c: &Collector, g: &mut Guard) {
             }
         }
         cc.add_transitions(l.n);
+        cc.count("oracle_checks", l.n);
         cc.count("cases", l.n);
         cc.count("long_cases", l.n);
         cc.outcomes(&l.outcomes);
@@ -1897,6 +1908,7 @@ pub fn c02(c: &Collector, g: &mut Guard) {
             }
         }
         cc.add_transitions(l.n);
+        cc.count("oracle_checks", l.n);
         cc.add_states(words);
         cc.count("words", words);
         cc.count("chunked_runs", l.n);
@@ -1933,6 +1945,7 @@ pub fn c02(c: &Collector, g: &mut Guard) {
             }
         }
         cc.add_transitions(l.n);
+        cc.count("oracle_checks", l.n);
         cc.add_states(words);
         cc.count("macro_words", words);
         cc.count("chunked_runs", l.n);
@@ -1964,6 +1977,7 @@ pub fn c02(c: &Collector, g: &mut Guard) {
             }
         }
         cc.add_transitions(l.n);
+        cc.count("oracle_checks", l.n);
         cc.add_states(words);
         cc.count("byte_strings", words);
         cc.count("chunked_runs", l.n);
@@ -2030,6 +2044,7 @@ pub fn c02(c: &Collector, g: &mut Guard) {
             }
         }
         cc.add_transitions(n);
+        cc.count("oracle_checks", n);
         cc.count("long_stream_runs", n);
         cc.outcomes(&outcomes);
     });
@@ -2143,6 +2158,7 @@ fn c02_sessions(c: &Collector) {
             session_verdict(cc, names[si], &single, r, "7-byte chunks".into(), json!({"session": names[si], "cut": "7"}));
         }
         cc.add_transitions(n);
+        cc.count("oracle_checks", n);
         cc.count("session_runs", n);
     });
     for cr in crashes {
